@@ -1123,6 +1123,23 @@ fn td_case(ctx: &mut Ctx, case: &Json) {
                 if !im.buffered.is_empty() {
                     problems.push("image carries buffered values although serialize() compresses first".into());
                 }
+                // The merge direction alternates with every compression and is part of the image (a reader
+                // continues where the writer stopped). Up to 50 values nothing overflows the buffer (its capacity is at
+                // least 120), so the compression done by serialize() is the first one: the flag must be set; one more
+                // value and a second serialize() is the second compression: the flag must be clear. This holds for
+                // the single-value form as for the general one.
+                if (1..=50).contains(&n_finite) {
+                    if !im.reverse_merge {
+                        problems.push("merge-direction flag clear after the first compression".into());
+                    }
+                    let mut d2 = d.clone();
+                    d2.update(values.iter().copied().find(|v| v.is_finite()).unwrap_or(0.0));
+                    match spec::tdigest::decode_native(&d2.serialize(), false) {
+                        Ok((im2, _)) if !im2.reverse_merge && im2.total_weight() == n_finite + 1 => {}
+                        Ok((im2, _)) => problems.push(format!("after one more value and a second serialize(): flag {} weight {}", im2.reverse_merge, im2.total_weight())),
+                        Err(e) => problems.push(format!("second image: {}", e)),
+                    }
+                }
                 if !problems.is_empty() {
                     ctx.violation("TDigest: spec-decoded image != model state", format!("{}: {}", what, problems.join("; ")));
                 }
@@ -1282,10 +1299,13 @@ pub fn run(ctx: &mut Ctx) {
             run_case(ctx, &case);
         }
     }
-    if !ctx.quick() && ctx.shard == 3 % ctx.nshards {
-        // > 65535 entries so that num_entries_bytes = 3
-        let case = Json::obj().set("family", "theta").set("lane", "synthetic").set("width", 30u64).set("len", 70_000u64).set("seed", 99u64);
-        run_case(ctx, &case);
+    // around and beyond 65535 entries, where the entry count of the compressed form needs a third byte
+    for (i, len) in [65_535u64, 65_536, 65_537, 70_000, 200_000].into_iter().enumerate() {
+        if (3 + i) % ctx.nshards == ctx.shard && (len <= 70_000 || !ctx.quick()) {
+            let case = Json::obj().set("family", "theta").set("lane", "synthetic").set("width", 30u64 + i as u64).set("len", len).set("seed", rt::mix(&[ctx.seed, 99, len]));
+            run_case(ctx, &case);
+            ctx.cover("theta_more_than_65535_entries");
+        }
     }
 }
 
